@@ -83,6 +83,11 @@ class PropertyRun:
                 inl = overrides.get("+inline", [])
                 self.E.inline_ok.update(inl)
                 removed = {k: self.E.contracts.pop(k) for k in inl if k in self.E.contracts}
+                # callee contracts that hold only in this variant's environment (e.g. one framing mode)
+                swapped = {}
+                for k, cc in (overrides.get("+contracts") or {}).items():
+                    swapped[k] = self.E.contracts.get(k)
+                    self.E.contracts[k] = cc
             extra = getattr(mod, "EXTRA_AXIOMS", ())
             tier = self.tier
 
@@ -93,6 +98,11 @@ class PropertyRun:
             if overrides is not None:
                 self.E.contracts[qn] = saved
                 self.E.contracts.update(removed)
+                for k, cc in swapped.items():
+                    if cc is None:
+                        self.E.contracts.pop(k, None)
+                    else:
+                        self.E.contracts[k] = cc
                 self.E.inline_ok.difference_update(inl)
                 for ob in res["obligations"]:
                     ob["name"] = ob["name"] + "[%s]" % variant
